@@ -5,4 +5,5 @@ CONSTANTS
   MaxLines = 2
   EmitMod = 1
   Mode = "gen"
+  WithErr = TRUE
 INVARIANTS EmitGen
